@@ -60,6 +60,14 @@ def _sc(draw):
             if draw(st.integers(0, 5)) == 5:
                 h['bus2'] = draw(st.integers(0, nb - 1).filter(lambda x: x != bi))  # the same function object registered on a second bus
             handlers.append(h)
+    if fwd and draw(st.integers(0, 5)) == 0:
+        # a type-specific handler on a forwarding bus that keeps dispatching its own event type to its own bus from inside itself: on
+        # the 4th level the library's recursion guard refuses it - the forwards registered on that bus must still happen for that event
+        src = draw(st.sampled_from(sorted({e[0] for e in fwd})))
+        maxdepth = 3
+        handlers.append({'bus': src, 'pat': 0, 'kind': draw(st.sampled_from(['async', 'async', 'sync'])), 'prog': [['disp', src, 0, draw(st.sampled_from(['ff', 'ff', 'await']))]], 'ret': 'idx', 'selfrec': True})
+        if handlers[-1]['kind'] == 'sync':
+            handlers[-1]['prog'][0][3] = 'ff'
     actors = []
     for _ in range(draw(st.integers(1, 3))):
         ops = []
@@ -160,6 +168,8 @@ def classes(F):
     cl.append(f'reach={_max_reach(F)}')
     if any(r['k'] == 'redisp' and r.get('ok') for r in F.tr):
         cl.append('redispatch')
+    if any(r['err'] == 'RuntimeError' and r['errkey'] is None for x in F.final.values() for r in x['results']):
+        cl.append('recursion-guard-tripped-on-a-forwarding-bus' if F.sc.get('fwd') else 'recursion-guard-tripped')
     if any(r['k'] == 'exit' and r['how'] == 'cancelled' for r in F.tr):
         cl.append('handler-timed-out-on-a-forwarding-bus' if F.sc.get('fwd') else 'handler-timed-out')
     return cl
